@@ -37,7 +37,7 @@ nontrivial_rule("C16", "Non-trivial: Ramberg-Osgood clauses - at least one argum
                        "total strain (the law is non-linear there); Hooke clauses - nu != 0 and a state with >= 2 non-zero "
                        "components; true stress/strain - an engineering strain with |e| > 1e-6.")
 assumptions("C16", [
-    "E in [1e3,1e6], K/E in [1e-3,5e-2], n in [0.02,0.6]; stresses up to K*0.3^n (plastic strain 0.3), strains up to 0.3; "
+    "E in [1e3,1e6], K/E in [1e-3,5e-2], n in [0.02,0.95] (two thirds of the cases in [0.02,0.6]); stresses up to K*0.3^n (plastic strain 0.3), strains up to 0.3; "
     "nu in (-0.999, 0.4999); engineering strain in [-0.9, 3]",
     "inputs are Python floats, numpy scalars, 1-D and 2-D float arrays ('scalar or array' of the quantifier); "
     "Python lists are used only where the implementation converts with numpy.asarray (Hooke); "
@@ -137,7 +137,7 @@ def _params(draw):
     else:
         E = 10.0 ** draw(st.floats(3.0, 6.0))
         K = E * 10.0 ** draw(st.floats(-3.0, -1.3))
-        n = draw(st.one_of(st.floats(0.02, 0.6), st.sampled_from([0.1, 0.15, 0.187, 0.2, 0.25, 0.5])))
+        n = draw(st.one_of(st.floats(0.02, 0.6), st.floats(0.02, 0.95), st.sampled_from([0.1, 0.15, 0.187, 0.2, 0.25, 0.5])))
     return E, K, n
 
 
@@ -184,7 +184,7 @@ def _ro_cases(draw, tier, stress=True, strain=False, extra=None):
 
 def _ro(case, ctx):
     E, K, n = case["E"], case["K"], case["n"]
-    ctx.label("kind:" + case["kind"], "n<0.1" if n < 0.1 else ("n<0.3" if n < 0.3 else "n>=0.3"))
+    ctx.label("kind:" + case["kind"], "n<0.1" if n < 0.1 else ("n<0.3" if n < 0.3 else ("n<0.6" if n < 0.6 else "n>=0.6")))
     ro = RambergOsgood(E, K, n)
     if (ro.E, ro.K, ro.n) != (E, K, n):
         raise Violation("parameter getters return %r" % ((ro.E, ro.K, ro.n),), bucket="getters")
